@@ -12,7 +12,7 @@ CFG = {
             "trusted": ["memcpy between an object and memory assembles the object's value per host byte order (C object representation); out-of-bounds accesses are outside the property"]},
     "C16": {"modules": ["W2c2Verif.Props.C16", "W2c2Verif.Props.C16Conc", "W2c2Verif.Props.C16Emit"], "names": gl.ATOMIC_LOADS + gl.ATOMIC_STORES + gl.rmw_names(), "aligned": True,
             "trusted": ["each __atomic_* builtin is ONE indivisible, sequentially consistent memory step on a naturally aligned cell (gcc/clang + hardware; assumed, exercised by a TSan stress run in the thorough tier)"]},
-    "C19": {"modules": ["W2c2Verif.Props.C19", "W2c2Verif.Props.C19Buf"], "names": gl.PLAIN[0] + gl.PLAIN[1] + gl.ATOMIC_LOADS + gl.ATOMIC_STORES + gl.rmw_names(), "aligned": True,
+    "C19": {"modules": ["W2c2Verif.Props.C19", "W2c2Verif.Props.C19Buf", "W2c2Verif.Props.C19Wasi"], "names": gl.PLAIN[0] + gl.PLAIN[1] + gl.ATOMIC_LOADS + gl.ATOMIC_STORES + gl.rmw_names(), "aligned": True,
             "trusted": ["no big-endian host or emulator exists in the image: the theorems are about the regenerated BE bodies with End.be; the real BE bodies are executed only in the forced-BE-on-this-LE-host configuration (model instantiated with body=be, host=le)"]},
 }
 
@@ -59,6 +59,7 @@ def run(tier, PROP):
         gens += [("MemFuncs", "gen_memfuncs"), ("EmitTable", "gen_emit"), ("Literals", "gen_literals")]
     if PROP == "C19":
         gens += [("BufRead", "gen_bufread")]                     # the translator's reading of float immediates (Props/C19Buf)
+        gens += [("WasiRaw", "gen_wasi_raw")]                    # every raw touch / accessor call of guest memory in wasi.c (Props/C19Wasi)
     if PROP == "C16":
         gens += [("AtomicEmit", "gen_atomic_emit")]              # the translator's dispatch of the atomic instructions (Props/C16Emit)
     pr = prove(chk, modules, gens)
@@ -120,6 +121,8 @@ def run(tier, PROP):
             e2e_extra.run(chk, PROP, [("memory", 1.0)], n_tok, n_e2e, 3, pr["driver_ok"], broken, os.path.join(d, "e2e"))
         if PROP == "C19":
             run_bufread(chk, repo, d, tier, broken)
+            import c19_wasi                                      # the WASI host: real wasi.c little-endian vs forced big-endian
+            c19_wasi.run(chk, repo, d, tier, broken)
         if PROP == "C16":
             run_atomic_stress(chk, repo, d, tier, broken)
             # the emitted atomic instructions through the whole pipeline: real w2c2 -> gcc (-DWASM_THREADS_PTHREADS) vs V8; the
@@ -222,6 +225,9 @@ def replay(path, PROP):
         bad = [x for x in res if x[0] == r["atomic_stress"] and x[1] != "ok"]
         print("replay atomic-stress %s (%d threads x %d): %s" % (r["atomic_stress"], r["threads"], r["iters"], " ".join(bad[0]) if bad else "ok"))
         return 1 if bad else 0
+    if "wasi_endian" in r:
+        import c19_wasi
+        return c19_wasi.replay(r)
     if "bufread" in r:
         import bufread
         with vlib.scratch("memr-") as d:
